@@ -27,7 +27,8 @@ MIN_NONTRIVIAL = {"quick": 30, "thorough": 150}
 
 BUILTIN = ['Ktrace', 'Hamiltonian', 's_RicciS', 'st_Riemann_down4', 'st_Weyl_down4',
            'Momentumup3', 'gdet', 'st_RicciS', 'rho_n', 'st_Ricci_down3', 'theta',
-           'Kretschmann', 'eweyl_n_down3', 'dtKtrace', 'gtt']
+           'Kretschmann', 'eweyl_n_down3', 'dtKtrace', 'gtt', 'null_ray_exp_out',
+           'null_ray_exp_in']
 EST = {'max': np.max, 'mean': np.mean, 'min': np.min, 'sum': np.sum,
        'median': lambda a: np.percentile(a, 50), 'std': np.std,
        'maxabs': lambda a: np.max(np.abs(a)), 'x0y0z0': lambda a: a[0, 0, 0],
@@ -74,6 +75,7 @@ def cases(tier, sd):
             est_each_call=bool(rng.random() < 0.5),
             Lambda=float(rng.choice([0.0, 0.2])), every=int(rng.choice([1, 3, 20])),
             components=bool(rng.random() < 0.3),
+            center=([float(v) for v in rng.uniform(-0.3, 0.3, 3)] if rng.random() < 0.5 else None),
             n1=int(rng.choice([6, 7])), fd_order=int(rng.choice([2, 4])),
             seed=int(rng.integers(1 << 30))))
     return out
@@ -119,6 +121,9 @@ def run_scenario(spec, n):
     from aurel import time as atime
     fd, data, rows, tvals = build_table(spec, n)
     kw = dict(Lambda=spec['Lambda'], clear_cache_every_nbr_calc=spec['every'])
+    if spec.get('center'):
+        kw['center'] = tuple(spec['center'])
+    grid0 = [fd.xarray.copy(), fd.cartesian_coords.copy(), fd.r.copy()]
     est = list(spec['est']) + ([{'my_est': my_est}] if spec['custom_est'] else [])
     names = spec['names']
     modes = {'single': [names]}
@@ -139,14 +144,18 @@ def run_scenario(spec, n):
                 cur = atime.over_time(cur, fd, vars=var_list(part), estimates=list(e),
                                       verbose=False, **kw)
         tables[mode] = cur
-    untouched = same(data, snap)
+    untouched = same(data, snap) and all(np.array_equal(a, b) for a, b in zip(
+        grid0, [fd.xarray, fd.cartesian_coords, fd.r]))
     # per-step oracle
     oracle = {}
     for k, tv in enumerate(tvals):
         vals = {}
         for nm in names:
-            rel = harness.make_rel(fd, rows[k], Lambda=spec['Lambda'],
-                                   clear_cache_every_nbr_calc=10 ** 9, memory_threshold_inGB=1e9)
+            fd1 = harness.make_fd(n, -1.0, 2.0 / n, order=spec['fd_order'], boundary='periodic')
+            okw = {'center': tuple(spec['center'])} if spec.get('center') else {}
+            rel = harness.make_rel(fd1, rows[k], Lambda=spec['Lambda'],
+                                   clear_cache_every_nbr_calc=10 ** 9, memory_threshold_inGB=1e9,
+                                   **okw)
             with common.Quiet():
                 vals[nm] = np.array(CUSTOM[nm](rel) if nm in CUSTOM else rel[nm])
             del rel
@@ -160,7 +169,7 @@ def diffs(spec, n):
     out = []
     hard = []
     if not untouched:
-        hard.append(("over_time modifies the caller's table", {}))
+        hard.append(("over_time modifies the caller's table or the shared grid object", {}))
     tk = spec['tkey']
     for mode, T in tables.items():
         tcol = [T[tk][j] for j in range(len(T[tk]))]
